@@ -1001,6 +1001,10 @@ Hsetlength(int32 aid, int32 length)
     if (access_rec->new_elem != TRUE)
         HGOTO_ERROR(DFE_ARGS, FAIL);
 
+    /* allocating space for the element needs write access */
+    if (!(access_rec->access & DFACC_WRITE))
+        HGOTO_ERROR(DFE_DENIED, FAIL);
+
     file_rec = HAatom_object(access_rec->file_id);
     if (BADFREC(file_rec))
         HGOTO_ERROR(DFE_ARGS, FAIL);
